@@ -498,7 +498,25 @@ def elementary_limits(ctx, rule="R03.11"):
     ctx.floor(rule, "elementary cor branches with a numeric integral scale", n, 2)
 
 
+def dimension_attribute(ctx, rule="R03.12"):
+    """All formulas of a model class are written for ONE dimension, `self.dim` (for lat-lon models the dimension of the embedding space):
+    no method of a CovModel subclass reads `field_dim` / `spatial_dim` (the parametric dimensions), which differ from `dim` exactly for
+    lat-lon and space-time models - a formula using one of them disagrees there with its siblings that use `dim`."""
+    prog = ctx.prog
+    cm = prog.cls(BASE, "CovModel")
+    n = 0
+    for ci in prog.subclasses(cm):
+        for kind in ("methods", "getters", "setters"):
+            for name, fn in sorted(getattr(ci, kind).items()):
+                reads = [a for a in ast.walk(fn) if isinstance(a, ast.Attribute) and isinstance(a.value, ast.Name) and a.value.id == "self" and a.attr in ("dim", "_dim", "field_dim", "spatial_dim")]
+                for a in reads:
+                    n += 1
+                    ctx.check(a.attr == "dim", rule, "%s::%s.%s" % (ci.module.relpath, ci.name, name), "dimension read as self.%s" % a.attr, "dim-attr:%s" % a.attr)
+    ctx.floor(rule, "dimension reads in model subclasses", n, 30)
+
+
 def run(ctx):
+    dimension_attribute(ctx)
     elementary_limits(ctx)
     from .C14 import no_subclass_caches
 
